@@ -33,17 +33,22 @@ def kill_matrix():
 
 def seeded():
     out = ["| defect | what it breaks | needs, to manifest | confirmed (suite+doctests pass, demo fails with / passes without) | check, quick tier | note |", "|---|---|---|---|---|---|"]
-    n = c = ok = 0
+    n = c = ok = nj = 0
     for mf in sorted(glob.glob(os.path.join(VERIF, "seeded", "*", "meta.json"))):
         m = json.load(open(mf))
-        r = m.get("checks", {}).get("quick", {})
+        r = dict(m.get("checks", {}).get("quick", {}))
+        for k_, x_ in m.get("checks", {}).get("thorough", {}).items():  # a class that only the thorough tier holds (about 40 s per case)
+            if x_["verdict"] == "caught" and r.get(k_, {}).get("verdict") != "caught":
+                r[k_] = dict(x_, verdict="caught (thorough tier)")
         conf = bool(m["verification"].get("confirmed")) and not m.get("superseded")
         v = "; ".join(f"{k}: {x['verdict']}" for k, x in r.items()) if conf else "not run (superseded)"
         n += 1
         ok += conf
-        c += conf and any(x["verdict"] == "caught" for x in r.values())
+        hit = conf and any(x["verdict"].startswith("caught") for x in r.values())
+        c += hit
+        nj += bool(conf and not hit and m.get("not_judged"))
         out.append(f"| {m['name']} | {m.get('breaks', '')} | {m.get('needs', '')} | {'yes' if conf else 'no longer (superseded by a repository fix)'} | {v} | {m.get('history', '')} |")
-    return f"{n} independent defects filed, {ok} of them defects of the current tree, {c} of those caught by the property's own check (after the strengthening noted in the last column).\n\n" + "\n".join(out) + "\n"
+    return f"{n} independent defects filed, {ok} of them defects of the current tree, {c} of those caught by the property's own check (after the strengthening noted in the last column), {nj} deliberately not judged (reason in the last column), {ok - c - nj} missed.\n\n" + "\n".join(out) + "\n"
 
 
 def rules():
